@@ -39,6 +39,23 @@ def attempt(fn, *a, **k):
         return None
 
 
+REJECTED = object()
+
+
+def attempt2(fn, *a, **k):
+    """like ``attempt`` but returns the sentinel REJECTED on a library-side
+    exception (for callables that legitimately return None)"""
+    try:
+        return fn(*a, **k)
+    except Exception as e:  # noqa
+        from .shard import classify_exception
+        if classify_exception(e) == "harness":
+            raise
+        if os.environ.get("QMON_DEBUG"):
+            print("REJECTED:", getattr(fn, "__qualname__", fn), repr(e)[:300])
+        return REJECTED
+
+
 def rand_simple_graph(rng, n, p_edge=0.5, connected=True):
     """random simple graph on n nodes as a sorted list of edges"""
     edges = set()
